@@ -50,6 +50,8 @@ type kcEvent struct {
 	Ver   int64  `json:"ver,omitempty"`
 	Lease int    `json:"lease,omitempty"`
 	Batch []int  `json:"batch,omitempty"` // indices into the list of operations created so far
+	// More: further keys (same leaseholder) set in the same local transaction
+	More []string `json:"more,omitempty"`
 }
 
 type kcCase struct {
@@ -78,7 +80,21 @@ func genKC(t *rapid.T) kcCase {
 			} else {
 				// the key's leaseholder is fixed (leases are not transferable)
 				lease := 1 + int(key[0]-'a'+byte(len(key)))%c.Nodes
-				c.Events = append(c.Events, kcEvent{K: "local", Node: lease, Key: key, Del: rapid.IntRange(0, 3).Draw(t, "del") == 0})
+				ev := kcEvent{K: "local", Node: lease, Key: key, Del: rapid.IntRange(0, 3).Draw(t, "del") == 0}
+				if rapid.IntRange(0, 2).Draw(t, "multi") == 0 {
+					// a transaction with several operations for this leaseholder
+					var same []string
+					for _, k2 := range keys {
+						if 1+int(k2[0]-'a'+byte(len(k2)))%c.Nodes == lease {
+							same = append(same, k2)
+						}
+					}
+					for j := rapid.IntRange(1, 3).Draw(t, "nmore"); j > 0; j-- {
+						ev.More = append(ev.More, same[rapid.IntRange(0, len(same)-1).Draw(t, "mkey")])
+					}
+				}
+				c.Events = append(c.Events, ev)
+				nops += len(ev.More)
 			}
 			nops++
 		default:
@@ -101,6 +117,7 @@ type kcNode struct {
 	seen      map[int]bool       // ops delivered or created here
 	notified  map[string]int     // key|ver|lease -> times accepted (C13)
 	lastDig   map[string][2]int64 // key -> (ver, lease) after the previous step
+	lastIssued int64 // highest version this node's assigner has issued
 }
 
 type kcOp struct {
@@ -236,15 +253,29 @@ func runKC(t *testing.T, c kcCase, st *drv.Stats, prop string) (fail *drv.Failur
 		switch ev.K {
 		case "local":
 			nd := nodes[ev.Node]
-			val := "v" + strconv.Itoa(len(ops))
-			o := Operation{Change: xkv.Change{Key: []byte(ev.Key), Value: []byte(val), Variant: change.VariantSet}, Leaseholder: node.Key(ev.Node)}
-			if ev.Del {
-				o.Variant, o.Value = change.VariantDelete, nil
+			var txOps []Operation
+			var vals []string
+			for i, key := range append([]string{ev.Key}, ev.More...) {
+				val := "v" + strconv.Itoa(len(ops)+i)
+				o := Operation{Change: xkv.Change{Key: []byte(key), Value: []byte(val), Variant: change.VariantSet}, Leaseholder: node.Key(ev.Node)}
+				if ev.Del && i == 0 {
+					o.Variant, o.Value = change.VariantDelete, nil
+				}
+				txOps = append(txOps, o)
+				vals = append(vals, val)
 			}
-			req := TxRequest{Context: ctx, Operations: []Operation{o}, Leaseholder: node.Key(ev.Node), doneF: func(error) {}}
+			req := TxRequest{Context: ctx, Operations: txOps, Leaseholder: node.Key(ev.Node), doneF: func(error) {}}
 			req, ok, err := nd.va.assign(ctx, req)
 			if err != nil || !ok {
 				return drv.Failf("unexpected-error", "assign", "%s: assign ok=%v err=%v", what, ok, err)
+			}
+			// versions come from the leaseholder's monotonic counter: every operation it
+			// issues is newer than everything it issued before
+			for _, o := range req.Operations {
+				if int64(o.Version) <= nd.lastIssued {
+					return drv.Failf("version-not-monotonic", "leaseholder-counter", "%s: node %d issued version %d after having issued version %d", what, ev.Node, o.Version, nd.lastIssued)
+				}
+				nd.lastIssued = int64(o.Version)
 			}
 			// the leaseholder stores the digest next to the value in the same batch
 			withDigests := req
@@ -252,9 +283,14 @@ func runKC(t *testing.T, c kcCase, st *drv.Stats, prop string) (fail *drv.Failur
 			if err != nil || !ok {
 				return drv.Failf("unexpected-error", "persist", "%s: persist ok=%v err=%v", what, ok, err)
 			}
-			ops = append(ops, kcOp{op: req.Operations[0], val: val})
-			nd.seen[len(ops)-1] = true
-			keysSeen[ev.Key] = true
+			for i := range req.Operations {
+				ops = append(ops, kcOp{op: req.Operations[i], val: vals[i]})
+				nd.seen[len(ops)-1] = true
+				keysSeen[string(req.Operations[i].Key)] = true
+			}
+			if len(req.Operations) > 1 {
+				st.Probe("local_multi_op_tx")
+			}
 			st.Probe("local_write")
 		case "inject":
 			val := "v" + strconv.Itoa(len(ops))
